@@ -9,6 +9,10 @@ from checks import lach_common as lc
 def run(c):
     ex = lc.run_exhaustive(c, c.pick(["x31_6_full"], ["x31_8_full", "x11_8_full", "x31f_7_full"]), "block-contents")
     c.guard("model_dags_with_blocks", ex["total"]["dags_with_blocks"])
+    # DAGs found offline by the harness's generator in which one event is elected Atropos of two consecutive frames
+    # (a root that passed several frames); no model expectation: the trace specification decides
+    cor = lc.run_exhaustive(c, ["corpus:structural"], "block-contents", orders=3)
+    c.guard("corpus_atropos_of_two_frames", cor["total"].get("traced_atropos_of_two_frames", 0))
     res = lc.run_profile(c, "c02", c.pick(20, 200), "block-contents")
     st = res["stats"]
     c.guard("blocks", st.get("blocks", 0))
